@@ -25,11 +25,11 @@ def oracle_chain(P, sc):
         rt = mv(R, ts); t = [t[i] + rt[i] for i in range(3)]; R = mm(R, Rs); out.append((R, t))
     return out
 
-def setup(ck, concrete_signs=None):
+def setup(ck, concrete_signs=None, dof=6):
     eng = ck.engine()
     j = [z3.Real(f'j{i}') for i in range(6)]
     sg = [z3.Real(f'sg{i}') for i in range(6)] if concrete_signs is None else list(concrete_signs)
-    params, pv, off, sign = make_params(sign=sg)
+    params, pv, off, sign = make_params(sign=sg, dof=dof)
     if concrete_signs is None: eng.side += [s_ * s_ == 1 for s_ in sg]
     robot = make_robot(params)
     q = [j[i] * sg[i] - off[i] for i in range(6)]
@@ -46,10 +46,16 @@ def setup(ck, concrete_signs=None):
     return eng, st, fwd, poses, pv, off, sg, j, q, sc
 
 def run(ck):
+    # forward and the link poses do not depend on the dof field: the same identities are decided for the 6-DOF and the 5-DOF parameter set
+    # (for a 5-DOF robot the J6 slot is the tool rotation the 5-DOF entry points pass through, and forward applies it)
+    for dof in (6, 5): run_one(ck, dof)
+
+def run_one(ck, dof):
+    pre = '' if dof == 6 else '[dof=5] '
     ck.bounds = dict(angles='unbounded (only sin/cos of q_i enter)', parameters='all reals incl. zero/negative', signs='symbolic sigma_i with sigma_i^2 = 1 (all 64 patterns at once)')
     ck.assumptions += ['real arithmetic', 'nalgebra modelled mathematically; UnitQuaternion and Rotation3 both as 3x3 matrices (their equivalence is trusted)',
                        'sin/cos as algebraic pairs s^2+c^2=1; atan2/sqrt by their defining constraints']
-    eng, st, fwd, poses, pv, off, sg, j, q, sc = setup(ck)
+    eng, st, fwd, poses, pv, off, sg, j, q, sc = setup(ck, dof=dof)
     chain = oracle_chain(pv, sc)
     R = poly.ring_for(eng, signs=sg)
     # psi = atan2(a2, c3), k = sqrt(a2^2 + c3^2):  k*sin(psi) = a2, k*cos(psi) = c3 (asserted by the atan2 model)
@@ -89,7 +95,7 @@ def run(ck):
             if best is None or r.cost < best.cost: best = r
             if best.cost < 1e-18: break
         x = list(best.x) if best is not None else [0.0] * 12
-        return dict(params=[model_float(m, pv[n]) for n in PNAMES], off=[float(v) for v in x[6:]], sign=sgv, joints=[float(v) for v in x[:6]], fit_cost=float(best.cost) if best is not None else -1.0)
+        return dict(params=[model_float(m, pv[n]) for n in PNAMES], off=[float(v) for v in x[6:]], sign=sgv, joints=[float(v) for v in x[:6]], dof=dof, fit_cost=float(best.cost) if best is not None else -1.0)
     def free_names(t):
         acc = set(); todo = [t]; seen = set()
         while todo:
@@ -102,6 +108,7 @@ def run(ck):
     n_id = [0, 0]
     def identity(name, lhs, rhs):
         """lhs, rhs z3 reals; normalise the difference, let the solver decide the residual"""
+        name = pre + name
         try:
             res_p = poly.from_z3(R, lhs) - poly.from_z3(R, z3.simplify(rhs) if isz(rhs) else RV(rhs))
             resid = res_p.to_z3(); n_id[0] += 1; n_id[1] += res_p.nterms()
@@ -147,7 +154,7 @@ def run(ck):
         pz = b_or(*[x.poison() for x in val.d])
         if pz is not False: ck.decide(f'{nm} finite', eng, ctx, zb(pz), case, what=f'{nm} not finite for finite inputs')
     ck.notes.append(f'{n_id[0]} identities normalised, total residual terms {n_id[1]}')
-    ck.engine_obligations(eng, label='forward: ')
+    ck.engine_obligations(eng, label=pre + 'forward: ')
 
 if __name__ == '__main__':
     main(run, 'C03')
